@@ -547,6 +547,34 @@ func c06Rounded(got, exact *big.Rat) bool {
 	return d.Cmp(c06Half(ulp)) <= 0
 }
 
+// c06Round34 rounds a rational half-up to 34 significant digits.
+func c06Round34(q *big.Rat) *big.Rat {
+	if q.Sign() == 0 {
+		return new(big.Rat)
+	}
+	abs := new(big.Rat).Abs(q)
+	// scale so that the integer part has exactly 34 digits
+	ip := new(big.Int).Quo(abs.Num(), abs.Denom())
+	shift := 34 - len(ip.String())
+	if ip.Sign() == 0 {
+		shift = 34
+		t := new(big.Rat).Set(abs)
+		for t.Cmp(big.NewRat(1, 10)) < 0 {
+			t.Mul(t, big.NewRat(10, 1))
+			shift++
+		}
+	}
+	sc := c06Rat(big.NewInt(1), shift)
+	t := new(big.Rat).Mul(abs, sc)
+	t.Add(t, big.NewRat(1, 2))
+	n := new(big.Int).Quo(t.Num(), t.Denom())
+	r := new(big.Rat).Quo(new(big.Rat).SetInt(n), sc)
+	if q.Sign() < 0 {
+		r.Neg(r)
+	}
+	return r
+}
+
 func (k *c06Case) line() string { return k.op + " " + k.a.proto() + " " + k.b.proto() }
 
 // c06Check emits the O/I ops and the direct predicates of one evaluated case.
@@ -1002,8 +1030,12 @@ func c06Math(c *Cfg, r *Rng, w *c06Worker, n int) {
 			expr := fmt.Sprintf("math.MultipleOf(%s, %s)", xx, y)
 			res := run(expr)
 			cls := "math-multipleof"
-			if sig := c06RatSig(new(big.Rat).SetFrac(xx, y)); sig > 34 || sig < 0 && len(xx.String())-len(y.String()) >= 33 {
-				cls = "math-multipleof-quotient-over-34-digits"
+			// known region: the exact quotient is not representable in 34 digits AND its 34-digit
+			// rounding happens to be an integer (the builtin tests the rounded quotient)
+			if q := new(big.Rat).SetFrac(xx, y); c06RatSig(q) > 34 || c06RatSig(q) < 0 {
+				if c06Round34(q).IsInt() {
+					cls = "math-multipleof-quotient-over-34-digits"
+				}
 			}
 			good := res.kind == "bool" && (res.json == "true") == want
 			if !good && cls != "math-multipleof" {
